@@ -293,7 +293,31 @@ def random_wf_csr(rng, dtype):
     return ('csr', {'indptr': indptr, 'col': col, 'dat': dat, 'shape': [R, C], 'dtype': dtype})
 
 
+def probe_outcomes():
+    """a fixed set of reads and assignments, out-of-shape ones included, as a digest (environment probe)"""
+    import numpy as np
+    CsrMatrixBuilder, ImmutableCsrMatrix = _impl()
+    out = {}
+    m = ImmutableCsrMatrix([0, 1, 3, 3, 4], [0, 1, 3, 2], [1., 2., 3., 4.], (4, 4), dtype=float)
+    for r in range(-6, 7):
+        for c in range(-6, 7):
+            out[f'cell {r},{c}'] = str(impl_read(m, ['cell', r, c]))
+        out[f'row {r}'] = str(impl_read(m, ['row', r]))
+        out[f'cols {r}'] = str(impl_read(m, ['cols', r, 0.]))
+    for shape in ((1, 0), (2, 3), (0, 2)):
+        b = CsrMatrixBuilder(shape=shape)
+        for r in range(-4, 5):
+            for c in range(-4, 5):
+                try:
+                    b[r, c] = 5
+                    out[f'set {shape} {r},{c}'] = 'stored'
+                except Exception as e:  # noqa
+                    out[f'set {shape} {r},{c}'] = 'raises'
+    return out
+
+
 def run(ctx):
+    common.environment_probe(ctx, 'c17', 'probe_outcomes', 'Hpv.Props.C17.out_of_shape / csr_reads')
     rng = ctx.rng
     thorough = ctx.tier == 'thorough'
     vals = [1, -1, 2]
